@@ -322,7 +322,9 @@ theorem coreLoop_good (O : PyOracle) (lines : Lines) : ∀ (f i : Nat) (s : PSt)
       -- the one `internal` written in the loop itself: `stripped.split(":", 1)` after `":" in stripped`
       split
       apply Good.ite (ih _ _)
-      apply Good.ite (ih _ _)
+      apply Good.ite
+      · -- an import line: what `ast.parse` says about it
+        repeat (first | with_reducible exact ih _ _ | good_step)
       conv => zeta
       apply Good.ite (ih _ _)
       apply Good.ite (ih _ _)
